@@ -14,7 +14,7 @@ from . import common
 from pvc import core, loopcut
 from pvc.core import Sym
 
-MODULES = ['dassh.reactor']
+MODULES = ['dassh.reactor', 'dassh.assembly']
 PROPERTY = 'C05'
 LEAN_LEMMAS = ['mesh_increasing']        # /verif/lean/Ghost.lean, checked in the thorough tier
 FUNCTIONS = ['dassh.reactor:Reactor._setup_axial_region_bnds', 'dassh.reactor:Reactor._setup_overall_axial_mesh_req',
@@ -242,6 +242,10 @@ def configs(tier):
            (loop_prefix, dict()),
            (mesh_req, dict(user='none')), (mesh_req, dict(user='given')),
            (region_bnds, dict(plane=False)), (region_bnds, dict(plane=True)), (region_bnds, dict(plane=False, power=True))]
+    # the list of per-assembly requirements the smallest is taken from: one entry per assembly, computed from THAT
+    # assembly (its own power / estimated outlet temperature) - the contract C06 proves on _setup_asm_axial_mesh_req
+    from . import c06
+    out += [c for c in c06.configs(tier) if c[0] is c06.mesh_req_independent]
     if tier == 'thorough':
         out += [(loop_body, dict(n_bounds=4, req='user')), (loop_body, dict(n_bounds=5, req='grid'))]
     return out
